@@ -410,9 +410,22 @@ package model
 
 // listenerOf: the listener registered under a name (uninterpreted; BiasListeners.Fetch is specified to return it)
 //@ spec listenerOf(ls BiasListeners, name string) BiasListener
+//@ spec blLen(it utils.IdentifiableIterable) int = len(it.(*BiasListeners).Listeners)
+//@ spec blAt(it utils.IdentifiableIterable, i int) utils.Identifiable = it.(*BiasListeners).Listeners[i]
+//@ func (*BiasListeners).Len
+//@   property C20 C07
+//@   nopanic
+//@   refines utils.IdentifiableIterable.Len with iterLen=blLen
+//@   ensures result == len(pf.Listeners)
+//@ func (*BiasListeners).Get
+//@   property C20 C07
+//@   refines utils.IdentifiableIterable.Get with iterAt=blAt
+//@   ensures 0 <= index && index < len(pf.Listeners) && result == pf.Listeners[index]
+// Fetch: the listener registered under the method's name; an unknown name is rejected
 //@ func (*BiasListeners).Fetch
-//@   trusted
-//@   ensures result != nil && *result == listenerOf(*pf, listenerName)
+//@   property C20 C07 C01 C03 C04 C05 C06 C08 C09 C11 C12 C13 C14 C15 C16 C17 C18 C19
+//@   ensures [registered_under_that_name] result != nil && exists k int :: 0 <= k && k < len(pf.Listeners) && *result == pf.Listeners[k] && utils.identOf(pf.Listeners[k]) == listenerName
+//@   assumes [a_function_of_registry_and_name] *result == listenerOf(*pf, listenerName)
 
 //@ pred fires(dm *DecisionMaker, gen utils.SeededValueGenerator, biases *BiasesWithProps, i int) =
 //@      (*biases)[i].Props.ApplyProbability > draw(appfn(gen, dm.BiasApplyRandomSeed), i)
@@ -488,9 +501,23 @@ package model
 // listensFor(l, f): configuration fact "listener l is the one registered for method f": what f.ParseParams builds is what l understands.
 //@ spec funcOf(fs PreferenceFunctions, name string) PreferenceFunction
 //@ spec listensFor(l BiasListener, f PreferenceFunction) bool
+// the registry as a list of identifiable objects (definitions of utils.iterLen / utils.iterAt for this type)
+//@ spec pfLen(it utils.IdentifiableIterable) int = len(it.(*PreferenceFunctions).Functions)
+//@ spec pfAt(it utils.IdentifiableIterable, i int) utils.Identifiable = it.(*PreferenceFunctions).Functions[i]
+//@ func (*PreferenceFunctions).Len
+//@   property C20 C01
+//@   nopanic
+//@   refines utils.IdentifiableIterable.Len with iterLen=pfLen
+//@   ensures result == len(pf.Functions)
+//@ func (*PreferenceFunctions).Get
+//@   property C20 C01
+//@   refines utils.IdentifiableIterable.Get with iterAt=pfAt
+//@   ensures 0 <= index && index < len(pf.Functions) && result == pf.Functions[index]
+// Fetch: returns only the method registered under the requested name - so an unknown name never gets past it (it panics)
 //@ func (*PreferenceFunctions).Fetch
-//@   trusted
-//@   ensures result != nil && *result == funcOf(*pf, function)
+//@   property C20 C01 C03 C04 C05 C06 C07 C08 C09 C11 C12 C13 C14 C15 C16 C17 C18 C19
+//@   ensures [registered_under_that_name] result != nil && exists k int :: 0 <= k && k < len(pf.Functions) && *result == pf.Functions[k] && utils.identOf(pf.Functions[k]) == function
+//@   assumes [a_function_of_registry_and_name] *result == funcOf(*pf, function)
 
 //@ ifacemethod PreferenceFunction.ParseParams
 //@   ensures forall l BiasListener :: listensFor(l, self) ==> validParams(l, result) && coversAll(l, result, dm.Criteria)
@@ -550,6 +577,7 @@ package model
 //@             && (forall i int, c int :: 0 <= i && i < len(dm.KnownAlternatives) && 0 <= c && c < len(dm.Criteria) ==> dm.Criteria[c].Id in dm.KnownAlternatives[i].Criteria)
 //@   returnhint [the_named_method_ranks_the_state_the_biases_left] *preferenceFunction == funcOf(preferenceFunctions, dm.PreferenceFunction)
 //@             && isEvaluation(res, *preferenceFunction, processedParams) && result.Result == *res && result.Biases == *biasesProps
+//@   ensures [C20 only_a_registered_method_is_evaluated] exists k int :: 0 <= k && k < len(preferenceFunctions.Functions) && utils.identOf(preferenceFunctions.Functions[k]) == dm.PreferenceFunction
 //@   ensures [C08 one_report_per_enabled_bias] result != nil && forall i int :: 0 <= i && i < len(result.Biases) ==> typeis(result.Biases[i], BiasParams) && !result.Biases[i].(BiasParams).Disabled
 
 // ---- alternative.go: evaluation results and rankings (C01, C03, C04)
@@ -562,12 +590,12 @@ package model
 //@   ensures [single_value] fresh(result) && result.Alternative == *alternative && typeis(result.Evaluation, EvaluationSingleValue) && val(*result) == value
 
 //@ func (*AlternativeResult).Value
-//@   property C03 C04 C01 C09 C14 C16 C07 C15 C18
+//@   property C03 C04 C01 C09 C14 C16 C07 C15 C18 C20
 //@   panics_iff [not_single_value] !typeis(a.Evaluation, EvaluationSingleValue)
 //@   ensures [value] result == val(*a)
 
 //@ func (*AlternativeResult).rounded
-//@   property C03 C04 C01 C09 C14 C16 C07 C15 C18
+//@   property C03 C04 C01 C09 C14 C16 C07 C15 C18 C20
 //@   panics_iff [not_single_value] !typeis(a.Evaluation, EvaluationSingleValue)
 //@   ensures [rounded] fresh(result) && result.Alternative == a.Alternative && typeis(result.Evaluation, EvaluationSingleValue) && val(*result) == round8(val(*a))
 
@@ -582,7 +610,7 @@ package model
 //@   opaque
 
 //@ func (*AlternativeResult).positionInRanking
-//@   property C01 C04 C03 C09 C14 C16 C07 C15 C18
+//@   property C01 C04 C03 C09 C14 C16 C07 C15 C18 C20
 //@   requires [single] typeis(a.Evaluation, EvaluationSingleValue) && forall j int :: 0 <= j && j < len(*allAlternatives) ==> typeis((*allAlternatives)[j].Evaluation, EvaluationSingleValue)
 //@   requires [sorted] forall i int, j int :: 0 <= i && i < j && j < len(*allAlternatives) ==> val((*allAlternatives)[i]) >= val((*allAlternatives)[j])
 //@   requires [distinct] forall i int, j int :: 0 <= i && i < j && j < len(*allAlternatives) ==> (*allAlternatives)[i].Alternative.Id != (*allAlternatives)[j].Alternative.Id
@@ -613,7 +641,7 @@ package model
 //@   opaque
 
 //@ func (*AlternativeResults).Ranking
-//@   property C01 C04 C03 C09 C14 C16 C07 C15 C18
+//@   property C01 C04 C03 C09 C14 C16 C07 C15 C18 C20
 //@   requires [single] forall j int :: 0 <= j && j < len(*a) ==> typeis((*a)[j].Evaluation, EvaluationSingleValue)
 //@   requires [distinct] forall i int, j int :: 0 <= i && i < j && j < len(*a) ==> (*a)[i].Alternative.Id != (*a)[j].Alternative.Id
 //@   ensures [one_entry_each] fresh(result) && fresh(*result) && len(*result) == len(*a)
@@ -666,7 +694,7 @@ package model
 //@   ensures [schema_of_the_weights_parameter] typeis(result, WeightType)
 
 //@ func Rank
-//@   property C01 C03 C04 C07 C15 C18
+//@   property C01 C03 C04 C07 C15 C18 C20
 //@   fnparam pref pure
 //@   fnparam pref ensures result != nil && typeis(result.Evaluation, EvaluationSingleValue) && result.Alternative == *arg0
 //@   requires [distinct] forall i int, j int :: 0 <= i && i < j && j < len(dmp.ConsideredAlternatives) ==> dmp.ConsideredAlternatives[i].Id != dmp.ConsideredAlternatives[j].Id
